@@ -1,1 +1,266 @@
 //! wirekit2: socket-table / routing / rule-chain driver for turmoil-net (C13, C17, C19).
+//!
+//! The harness *is the wire*: it builds a `Net`, enters it, polls application futures by hand
+//! (flag wakers, `set_current` before every poll), moves packets from `egress_all` to `deliver`
+//! and decides the fate of each of them. Nothing here draws random numbers or reads a clock.
+
+pub mod table;
+
+use serde::{Deserialize, Serialize};
+use std::future::Future;
+use std::net::IpAddr;
+use std::pin::Pin;
+use std::sync::atomic::{AtomicBool, Ordering};
+use std::sync::Arc;
+use std::task::{Context, Poll, Wake, Waker};
+use turmoil_net::{EnterGuard, HostId, KernelConfig, Net, Packet, Transport, Verdict};
+
+// ------------------------------------------------------------------------------------------------
+// wakers
+
+pub struct Flag(AtomicBool);
+
+impl Wake for Flag {
+    fn wake(self: Arc<Self>) {
+        self.0.store(true, Ordering::SeqCst);
+    }
+    fn wake_by_ref(self: &Arc<Self>) {
+        self.0.store(true, Ordering::SeqCst);
+    }
+}
+
+/// A waker that only sets a flag; the driver polls a task again when its flag is set.
+pub struct WakeFlag {
+    flag: Arc<Flag>,
+    pub waker: Waker,
+}
+
+impl WakeFlag {
+    /// Starts set: a fresh task is polled once.
+    pub fn new() -> Self {
+        let flag = Arc::new(Flag(AtomicBool::new(true)));
+        let waker = Waker::from(flag.clone());
+        WakeFlag { flag, waker }
+    }
+    pub fn take(&self) -> bool {
+        self.flag.0.swap(false, Ordering::SeqCst)
+    }
+    pub fn is_set(&self) -> bool {
+        self.flag.0.load(Ordering::SeqCst)
+    }
+    pub fn set(&self) {
+        self.flag.0.store(true, Ordering::SeqCst);
+    }
+}
+
+impl Default for WakeFlag {
+    fn default() -> Self {
+        Self::new()
+    }
+}
+
+// ------------------------------------------------------------------------------------------------
+// configuration shared by the three properties
+
+#[derive(Clone, Debug, Serialize, Deserialize)]
+pub struct NetCfg {
+    pub retx_threshold: u32,
+    pub retx_max: u32,
+    pub backlog: usize,
+}
+
+impl NetCfg {
+    pub fn kernel(&self) -> KernelConfig {
+        KernelConfig::default()
+            .retx_threshold(self.retx_threshold)
+            .retx_max(self.retx_max)
+            .default_backlog(self.backlog)
+    }
+    /// Egress rounds after which a handshake / data retransmission has certainly given up.
+    pub fn give_up_rounds(&self) -> u64 {
+        (self.retx_threshold as u64) * (self.retx_max as u64 + 2)
+    }
+}
+
+pub fn parse_ip(s: &str) -> IpAddr {
+    s.parse().unwrap_or_else(|_| panic!("scenario holds a bad ip literal {s:?}"))
+}
+
+// ------------------------------------------------------------------------------------------------
+// the driver
+
+pub struct Driver {
+    guard: EnterGuard,
+    pub hosts: Vec<HostId>,
+    pub addrs: Vec<Vec<IpAddr>>,
+}
+
+impl Driver {
+    /// Build the `Net` (hosts in order, each with its literal addresses), let `pre` install
+    /// permanent rules, and enter it.
+    pub fn new(addrs: &[Vec<IpAddr>], cfg: &NetCfg, pre: impl FnOnce(&mut Net)) -> Driver {
+        let mut net = Net::with_config(cfg.kernel());
+        let mut hosts = Vec::new();
+        for a in addrs {
+            hosts.push(net.add_host(a.clone()));
+        }
+        pre(&mut net);
+        let guard = net.enter();
+        Driver { guard, hosts, addrs: addrs.to_vec() }
+    }
+
+    pub fn guard(&self) -> &EnterGuard {
+        &self.guard
+    }
+
+    pub fn set(&self, h: usize) {
+        self.guard.set_current(self.hosts[h]);
+    }
+
+    /// Run `f` with host `h` current and a context made from `waker`.
+    pub fn with_cx<T>(&self, h: usize, waker: &Waker, f: impl FnOnce(&mut Context<'_>) -> T) -> T {
+        self.set(h);
+        let mut cx = Context::from_waker(waker);
+        f(&mut cx)
+    }
+
+    pub fn poll_fut<F: Future + ?Sized>(&self, h: usize, waker: &Waker, fut: Pin<&mut F>) -> Poll<F::Output> {
+        self.with_cx(h, waker, |cx| fut.poll(cx))
+    }
+
+    /// Poll a future exactly once on host `h`; `None` if it is pending (the future is dropped).
+    pub fn once<F: Future>(&self, h: usize, fut: F) -> Option<F::Output> {
+        let mut fut = std::pin::pin!(fut);
+        match self.poll_fut(h, Waker::noop(), fut.as_mut()) {
+            Poll::Ready(v) => Some(v),
+            Poll::Pending => None,
+        }
+    }
+
+    /// Run a synchronous socket call (local_addr, try_recv_from, drop ...) with host `h` current.
+    pub fn on<T>(&self, h: usize, f: impl FnOnce() -> T) -> T {
+        self.set(h);
+        f()
+    }
+
+    pub fn egress(&self, out: &mut Vec<Packet>) {
+        self.guard.egress_all(out);
+    }
+
+    pub fn deliver(&self, p: Packet) {
+        self.guard.deliver(p);
+    }
+
+    pub fn evaluate(&self, p: &Packet) -> Verdict {
+        self.guard.evaluate(p)
+    }
+
+    /// Which host owns `ip` (non-loopback)?
+    pub fn owner(&self, ip: IpAddr) -> Option<usize> {
+        self.addrs.iter().position(|a| a.contains(&ip))
+    }
+
+    pub fn counts(&self, h: usize) -> (usize, usize, usize) {
+        let c = turmoil_net::verif::socket_counts(self.hosts[h]);
+        (c.sockets, c.bindings, c.connections)
+    }
+}
+
+// ------------------------------------------------------------------------------------------------
+// packets
+
+#[derive(Clone, Copy, Debug, PartialEq, Eq, Serialize, Deserialize)]
+pub enum PktKind {
+    Udp,
+    Syn,
+    SynAck,
+    Rst,
+    Fin,
+    Data,
+    Ack,
+}
+
+impl PktKind {
+    pub fn name(self) -> &'static str {
+        match self {
+            PktKind::Udp => "UDP",
+            PktKind::Syn => "SYN",
+            PktKind::SynAck => "SYNACK",
+            PktKind::Rst => "RST",
+            PktKind::Fin => "FIN",
+            PktKind::Data => "DATA",
+            PktKind::Ack => "ACK",
+        }
+    }
+}
+
+pub fn kind(p: &Packet) -> PktKind {
+    match &p.payload {
+        Transport::Udp(_) => PktKind::Udp,
+        Transport::Tcp(s) => {
+            if s.flags.rst {
+                PktKind::Rst
+            } else if s.flags.syn && s.flags.ack {
+                PktKind::SynAck
+            } else if s.flags.syn {
+                PktKind::Syn
+            } else if s.flags.fin {
+                PktKind::Fin
+            } else if !s.payload.is_empty() {
+                PktKind::Data
+            } else {
+                PktKind::Ack
+            }
+        }
+    }
+}
+
+pub fn ports(p: &Packet) -> (u16, u16) {
+    match &p.payload {
+        Transport::Udp(d) => (d.src_port, d.dst_port),
+        Transport::Tcp(s) => (s.src_port, s.dst_port),
+    }
+}
+
+/// Deterministic one-line rendering (no pointers, no hash order).
+pub fn desc(p: &Packet) -> String {
+    let (sp, dp) = ports(p);
+    match &p.payload {
+        Transport::Udp(d) => format!("UDP {}:{}>{}:{} len{} tag{:?}", p.src, sp, p.dst, dp, d.payload.len(), tag_of(&d.payload)),
+        Transport::Tcp(s) => format!(
+            "{} {}:{}>{}:{} seq{} ack{} len{}",
+            kind(p).name(),
+            p.src,
+            sp,
+            p.dst,
+            dp,
+            s.seq,
+            s.ack,
+            s.payload.len()
+        ),
+    }
+}
+
+/// Probe payloads are 8 bytes, little endian tag.
+pub fn tag_bytes(tag: u64) -> [u8; 8] {
+    tag.to_le_bytes()
+}
+
+pub fn tag_of(b: &[u8]) -> Option<u64> {
+    if b.len() == 8 {
+        Some(u64::from_le_bytes(b.try_into().unwrap()))
+    } else {
+        None
+    }
+}
+
+pub fn ek(e: &std::io::Error) -> String {
+    format!("{:?}", e.kind())
+}
+
+pub fn res_kind<T>(r: &std::io::Result<T>) -> String {
+    match r {
+        Ok(_) => "Ok".into(),
+        Err(e) => ek(e),
+    }
+}
